@@ -370,6 +370,10 @@ impl Sm9SignMasterKey {
         if h.is_zero() || u256_cmp(h, &SM9_N) >= 0 {
             return Err(Sm9Error::InvalidDigest);
         }
+        // B1: S must be a point of the curve
+        if !s.is_on_curve() {
+            return Err(Sm9Error::InvalidPoint);
+        }
         let g = sm9_u256_pairing(&self.ppubs, &SM9_POINT_MONT_P1);
         let t = g.pow(h);
         // B5: h1 = H1(ID || hid, N)
